@@ -9,6 +9,7 @@ CONSTANTS FundAmts, Prices, Rates, BondedPairs, MaxSteps, EmitLen, OnlyOk
 
 PriceOf(p) == CASE p = "D0001" -> D0001 [] p = "D03" -> D03 [] p = "D075" -> D075 [] p = "D1" -> D1 [] p = "D15" -> D15 [] p = "D1000" -> D1000
 RateOf(r)  == CASE r = "D0" -> D0 [] r = "D005" -> D005 [] r = "D03" -> D03 [] r = "D1" -> D1
+PairOf(i) == CASE i = 1 -> <<1, 1>> [] i = 2 -> <<1, 3>> [] i = 3 -> <<10, 1>> [] i = 4 -> <<0, 5>> [] i = 5 -> <<5, 0>> [] i = 6 -> <<7, 7>> [] i = 7 -> <<1000, 1>> [] i = 8 -> <<0, 0>>
 TxSwap(bB, stB) == ExecTx("hub", "dispatcher", [k |-> "swap_to_reward_denom", bsei_total_bonded |-> bB, stsei_total_bonded |-> stB], <<>>)
 TxDispatch == ExecTx("hub", "dispatcher", [k |-> "dispatch_rewards"], <<>>)
 TxKeeperRate(r) == ExecTx("owner", "dispatcher", [k |-> "update_config", hub_contract |-> "", bsei_reward_contract |-> "", stsei_reward_denom |-> "",
@@ -16,7 +17,7 @@ TxKeeperRate(r) == ExecTx("owner", "dispatcher", [k |-> "update_config", hub_con
 Txs ==
   {EvFund("dispatcher", d, a) : d \in {"usei", "kusd"}, a \in FundAmts} \cup {EvFund("dispatcher", "ufor", 2)}
   \cup {EvAccrue(v, d, a) : v \in Vals, d \in {"usei", "kusd"}, a \in FundAmts}
-  \cup {TxSwap(p[1], p[2]) : p \in BondedPairs} \cup {TxDispatch, TxUpdateGlobal}
+  \cup {TxSwap(PairOf(p)[1], PairOf(p)[2]) : p \in BondedPairs} \cup {TxDispatch, TxUpdateGlobal}
   \cup {[k |-> "set_ext", swap |-> "ok", oracle |-> "ok", price |-> PriceOf(p)] : p \in Prices}
   \cup {TxKeeperRate(RateOf(r)) : r \in Rates}
   \cup {TxClaim(u) : u \in Users}
